@@ -756,24 +756,88 @@ theorem min_div8_le (x : Rat) : min x (288000 : Rat) / 8 ≤ (36000 : Rat) := by
     rw [Rat.min_def]; split <;> grind
   grind
 
-theorem sizeBytes_le (x : Rat) : sizeBytes x ≤ 36000 := by
-  unfold sizeBytes
-  have h : (min x ((MAX_BLOOM_FILTER_SIZE * 8 : Nat) : Rat)) / 8 ≤ ((36000 : Int) : Rat) := by
+theorem truncInt_le (v : Rat) (c : Int) (hc : 0 ≤ c) (h : v ≤ (c : Rat)) : truncInt v ≤ c := by
+  unfold truncInt
+  split
+  · have := Rat.floor_monotone h
+    rwa [Rat.floor_intCast] at this
+  · rename_i hneg
+    have h0 : (0 : Rat) ≤ -v := by grind
+    have := Rat.floor_monotone h0
+    rw [show ((0 : Rat)) = ((0 : Int) : Rat) by rfl, Rat.floor_intCast] at this
+    omega
+
+theorem truncInt_mul_le (v : Rat) (hv : 0 ≤ v) : ((truncInt v : Int) : Rat) ≤ v := by
+  unfold truncInt
+  rw [if_pos hv]
+  exact Rat.floor_le v
+
+theorem sizeBytes_le (x : Rat) (n : Nat) (h : sizeBytes x = .ok n) : n ≤ 36000 := by
+  unfold sizeBytes at h
+  have hv : (min x ((MAX_BLOOM_FILTER_SIZE * 8 : Nat) : Rat)) / 8 ≤ ((36000 : Int) : Rat) := by
     have : ((MAX_BLOOM_FILTER_SIZE * 8 : Nat) : Rat) = 288000 := by
       simp [MAX_BLOOM_FILTER_SIZE, Spec.Bloom.MAX_BLOOM_FILTER_SIZE]
     rw [this]; exact min_div8_le x
-  have := Rat.floor_monotone h
-  rw [Rat.floor_intCast] at this
-  omega
+  have := truncInt_le _ 36000 (by omega) hv
+  simp only [] at h
+  split at h
+  · cases h
+  · cases h; omega
 
-theorem hashFuncs_le (y : Rat) : hashFuncs y ≤ 50 := by
-  unfold hashFuncs
-  have h : min y ((MAX_HASH_FUNCS : Nat) : Rat) ≤ ((50 : Int) : Rat) := by
+theorem hashFuncs_le (y : Rat) (k : Nat) (h : hashFuncs y = .ok k) : k ≤ 50 := by
+  unfold hashFuncs at h
+  have hv : min y ((MAX_HASH_FUNCS : Nat) : Rat) ≤ ((50 : Int) : Rat) := by
     have : ((MAX_HASH_FUNCS : Nat) : Rat) = 50 := by simp [MAX_HASH_FUNCS, Spec.Bloom.MAX_HASH_FUNCS]
     rw [this, Rat.min_def]; split <;> grind
-  have := Rat.floor_monotone h
-  rw [Rat.floor_intCast] at this
-  omega
+  have := truncInt_le _ 50 (by omega) hv
+  simp only [] at h
+  split at h
+  · cases h
+  · cases h; omega
+
+/-- the filter built is never larger than the requested number of bits -/
+theorem sizeBytes_bits_le (x : Rat) (hx : 0 ≤ x) (n : Nat) (h : sizeBytes x = .ok n) : ((n : Int) : Rat) * 8 ≤ x := by
+  unfold sizeBytes at h
+  simp only [] at h
+  have hC : (0 : Rat) ≤ ((MAX_BLOOM_FILTER_SIZE * 8 : Nat) : Rat) := by
+    simp [MAX_BLOOM_FILTER_SIZE, Spec.Bloom.MAX_BLOOM_FILTER_SIZE]; decide
+  have hmin0 : 0 ≤ min x ((MAX_BLOOM_FILTER_SIZE * 8 : Nat) : Rat) := by
+    rw [Rat.min_def]; split <;> assumption
+  have hminx : min x ((MAX_BLOOM_FILTER_SIZE * 8 : Nat) : Rat) ≤ x := by
+    rw [Rat.min_def]; split <;> grind
+  have hv0 : 0 ≤ min x ((MAX_BLOOM_FILTER_SIZE * 8 : Nat) : Rat) / 8 := by grind
+  have hle := truncInt_mul_le _ hv0
+  split at h
+  · cases h
+  · rename_i hneg
+    cases h
+    have : ((truncInt (min x ((MAX_BLOOM_FILTER_SIZE * 8 : Nat) : Rat) / 8)).toNat : Int) =
+        truncInt (min x ((MAX_BLOOM_FILTER_SIZE * 8 : Nat) : Rat) / 8) := by omega
+    rw [this]
+    grind
+
+/-- the number of hash functions never exceeds the requested one -/
+theorem hashFuncs_le_y (y : Rat) (hy : 0 ≤ y) (k : Nat) (h : hashFuncs y = .ok k) : ((k : Int) : Rat) ≤ y := by
+  unfold hashFuncs at h
+  simp only [] at h
+  have hC : (0 : Rat) ≤ ((MAX_HASH_FUNCS : Nat) : Rat) := by
+    simp [MAX_HASH_FUNCS, Spec.Bloom.MAX_HASH_FUNCS]; decide
+  have hmin0 : 0 ≤ min y ((MAX_HASH_FUNCS : Nat) : Rat) := by
+    rw [Rat.min_def]; split <;> assumption
+  have hminy : min y ((MAX_HASH_FUNCS : Nat) : Rat) ≤ y := by
+    rw [Rat.min_def]; split <;> grind
+  have hle := truncInt_mul_le _ hmin0
+  split at h
+  · cases h
+  · cases h
+    have : ((truncInt (min y ((MAX_HASH_FUNCS : Nat) : Rat))).toNat : Int) =
+        truncInt (min y ((MAX_HASH_FUNCS : Nat) : Rat)) := by omega
+    rw [this]
+    grind
+
+theorem create_unfold (x : Res Rat) (y : Nat → Res Rat) (t fl : Nat) : create x y t fl =
+    (x >>= fun xv => sizeBytes xv >>= fun n => y n >>= fun yv => hashFuncs yv >>= fun k =>
+      pure { vData := List.replicate n 0, nHashFuncs := k, nTweak := t, nFlags := fl }) := rfl
 
 /-! ### reload and histories -/
 
@@ -864,5 +928,60 @@ theorem run_sub : ∀ (ops : List Op) (f g : Filter), f.vData.length ≤ Wire.MA
     obtain ⟨f', h1, h2⟩ := bind_eq_ok h
     have s1 := step_sub f f' op hlen h1
     exact s1.trans (run_sub ops f' g (by rw [s1.1]; exact hlen) h2)
+
+/-- the bits set after a history are exactly the initial bits plus the scheduled bits of every
+    inserted element -/
+theorem bits_after_run : ∀ (ops : List Op) (f0 f : Filter), f0.vData.length ≤ Wire.MAX_SIZE →
+    run f0 ops = .ok f → ∀ j, Spec.Bloom.bitSet f.vData j ↔ (Spec.Bloom.bitSet f0.vData j ∨
+      ∃ x e, Op.insert x ∈ ops ∧ x.toBytes = .ok e ∧ f0.vData ≠ [] ∧
+        j ∈ Spec.Bloom.bitsOf (f0.vData.length * 8) f0.nHashFuncs (UInt32.ofNat f0.nTweak) e)
+  | [], f0, f, _, h, j => by
+    change Except.ok f0 = .ok f at h; cases h
+    constructor
+    · intro hj; exact Or.inl hj
+    · rintro (hj | ⟨x, e, hm, _⟩)
+      · exact hj
+      · cases hm
+  | op :: ops, f0, f, hlen, h, j => by
+    rw [run_cons] at h
+    obtain ⟨g, h1, h2⟩ := bind_eq_ok h
+    have s1 := step_sub f0 g op hlen h1
+    obtain ⟨hl, hk, ht, _⟩ := s1
+    have ih := bits_after_run ops g f (by rw [hl]; exact hlen) h2 j
+    have hne : g.vData ≠ [] ↔ f0.vData ≠ [] := by
+      rw [Ne, Ne, nil_iff_length, nil_iff_length, hl]
+    rw [ih, hl, hk, ht, hne]
+    cases op with
+    | insert x0 =>
+      change insertElem f0 x0 = .ok g at h1
+      rw [insertElem_unfold] at h1
+      obtain ⟨e0, he0, h1⟩ := bind_eq_ok h1
+      obtain ⟨g', hg, _, _, _, _, hb⟩ := insert_spec f0 e0
+      rw [hg] at h1; cases h1
+      rw [hb j]
+      constructor
+      · rintro ((hj | ⟨hn, hj⟩) | ⟨x, e, hm, he, hn, hj⟩)
+        · exact Or.inl hj
+        · exact Or.inr ⟨x0, e0, List.mem_cons_self, he0, hn, hj⟩
+        · exact Or.inr ⟨x, e, List.mem_cons_of_mem _ hm, he, hn, hj⟩
+      · rintro (hj | ⟨x, e, hm, he, hn, hj⟩)
+        · exact Or.inl (Or.inl hj)
+        · rcases List.mem_cons.mp hm with heq | hin
+          · cases heq
+            rw [he0] at he; cases he
+            exact Or.inl (Or.inr ⟨hn, hj⟩)
+          · exact Or.inr ⟨x, e, hin, he, hn, hj⟩
+    | reload =>
+      change reload f0 = .ok g at h1
+      rw [reload_eq f0 g hlen h1]
+      constructor
+      · rintro (hj | ⟨x, e, hm, he, hn, hj⟩)
+        · exact Or.inl hj
+        · exact Or.inr ⟨x, e, List.mem_cons_of_mem _ hm, he, hn, hj⟩
+      · rintro (hj | ⟨x, e, hm, he, hn, hj⟩)
+        · exact Or.inl hj
+        · rcases List.mem_cons.mp hm with heq | hin
+          · cases heq
+          · exact Or.inr ⟨x, e, hin, he, hn, hj⟩
 
 end BtcVerif.Bloom
